@@ -10,7 +10,10 @@ WORDS = [b'hello', b'world', b'user@example.com', b'<a@b.c>', b'Re:', b'[list]',
 
 
 def enc_word(rng, raw=None):
-    raw = raw if raw is not None else rng.choice(WORDS) + b' ' + rng.choice(WORDS)
+    if raw is None:
+        raw = rng.choice(WORDS) + b' ' + rng.choice(WORDS)
+        if rng.randrange(6) == 0:      # decoded text containing line structure / NUL
+            raw = rng.choice([b'alpha\nbeta', b'x\n\ty', b'\n', b'a\tb', b'end\n', b'nul\0after', b'\tlead'])
     cs = rng.choice([b'UTF-8', b'utf-8', b'ISO-8859-1', b'us-ascii'])
     if rng.randrange(2):
         e = rng.choice([b'B', b'b'])
@@ -159,3 +162,95 @@ def names_for_queries(rng, fields):
             n = rng.choice(present) + b'x' if present else b'Nope'
         qs.append(n)
     return qs
+
+
+# ---- MIME trees ------------------------------------------------------------------------------
+BOUNDARIES = [b'b', b'bb', b'XX', b'=_part', b'b--', b'--b', b'a b', b'0', b'Z9']
+
+
+def encode_body(rng, raw, enc):
+    if enc == b'base64':
+        e = base64.encodebytes(raw) if rng.randrange(3) else base64.b64encode(raw) + b'\n'
+        return e
+    if enc == b'quoted-printable':
+        out = bytearray()
+        for c in raw:
+            if c == 0x3d or c > 126 or (c < 32 and c != 10) or rng.randrange(12) == 0:
+                out += b'=%02X' % c
+            else:
+                out.append(c)
+            if rng.randrange(25) == 0:
+                out += b'=\n'
+        return bytes(out)
+    return raw
+
+
+def gen_leaf(rng, depth):
+    raw = b'\n'.join(rng.choice(WORDS + [b'plain text', b'<html>x</html>', b'--', b'-- b']) for _ in range(rng.randrange(1, 5))) + b'\n'
+    enc = rng.choice([None, None, b'base64', b'quoted-printable', b'7bit', b'BASE64', b'base64 ', b'8bit'])
+    ctype = rng.choice([b'text/plain', b'text/plain; charset=utf-8', b'text/html', b'text/html; x=y', b'application/octet-stream',
+                        b'text/plainx', None])
+    hs = []
+    if ctype is not None:
+        hs.append((rng.choice([b'Content-Type', b'content-type']), ctype))
+    if enc is not None:
+        hs.append((b'Content-Transfer-Encoding', enc))
+    if rng.randrange(3) == 0:
+        hs.append((b'X-Part', rng.choice(WORDS)))
+    body = encode_body(rng, raw, (enc or b'').strip().lower() if enc in (b'base64', b'quoted-printable') else None)
+    if enc == b'base64' and rng.randrange(10) == 0:
+        body = b'@@@' + body          # undecodable
+    rng.shuffle(hs)
+    return hs, body, raw
+
+
+def gen_mime(rng, depth=0, maxdepth=None, bad=True):
+    """Returns the text of an entity (header lines + blank line + body)."""
+    if maxdepth is None:
+        maxdepth = rng.choice([0, 1, 1, 2, 2, 3, 5, 6])
+    if depth >= maxdepth or rng.randrange(4) == 0 and depth > 0:
+        hs, body, _ = gen_leaf(rng, depth)
+        return b''.join(k + b': ' + v + b'\n' for k, v in hs) + b'\n' + body
+    b = rng.choice(BOUNDARIES) + (b'%d' % depth if rng.randrange(2) else b'')
+    sub = rng.choice([b'mixed', b'alternative', b'related'])
+    nparts = rng.choice([0, 1, 2, 2, 3, 4, 17 if depth == 0 else 3, 60 if depth == 0 and rng.randrange(4) == 0 else 2])
+    kind = rng.randrange(14) if bad else 99
+    param = b'; boundary="' + b + b'"'
+    if kind == 0:
+        param = b'; boundary=' + b                    # unquoted: not recognised
+    elif kind == 1:
+        param = b'; boundary="' + b                   # unterminated quote
+    elif kind == 2:
+        param = b'; boundary=""'
+    elif kind == 3:
+        param = b';  \tboundary="' + b + b'"; x=y'
+    elif kind == 4:
+        param = b''
+    out = bytearray()
+    out += rng.choice([b'Content-Type', b'content-type', b'CONTENT-TYPE']) + b': multipart/' + sub + param + b'\n'
+    if rng.randrange(4) == 0:
+        out += b'X-Other: y\n'
+    out += b'\n'
+    if rng.randrange(3) == 0:
+        out += b'preamble line\n' + (b'--' + b + b'x\n' if rng.randrange(2) else b'')
+    for i in range(nparts):
+        out += b'--' + b + b'\n'
+        out += gen_mime(rng, depth + 1, maxdepth, bad)
+        if not out.endswith(b'\n'):
+            out += b'\n'
+        if rng.randrange(8) == 0:
+            out += b'--' + b + b' \n'                 # boundary-like line (trailing blank)
+    if kind == 5:
+        pass                                          # missing terminator
+    elif kind == 6:
+        out += b'--' + b + b'--'                      # terminator without newline
+    else:
+        out += b'--' + b + b'--\n'
+    if rng.randrange(3) == 0:
+        out += b'epilogue\n'
+    return bytes(out)
+
+
+def gen_mime_message(rng):
+    pre = b''.join(k + b': ' + v + b'\n' for k, v in [(b'From', b'a@b'), (b'Subject', rng.choice(WORDS))][:rng.randrange(3)])
+    return pre + gen_mime(rng)
